@@ -195,6 +195,35 @@ void explore_counters(Ctx &ctx) {
     }
 }
 
+// long single requests: the block counter of one call walks across its byte carries (block 256 = 16 KiB, block 65536 = 4 MiB); for the
+// reduced-round Salsa20 variants, which have no initial-counter parameter, this is the only way to reach those blocks
+void explore_long(Ctx &ctx) {
+    auto masks = masks_for_streams();
+    Rng r = ctx.rng("c03-long");
+    uint64_t idx = 0;
+    std::vector<size_t> lens = { 16383, 16384, 16385, 16447, 16448, 16449, 16500, 32767, 32768, 32769, 32832, 32900, 40037, 49153, 65600 };
+    if (ctx.thorough()) for (size_t l : { (size_t) 16320, (size_t) 16640, (size_t) 32704, (size_t) 33000, (size_t) 65536, (size_t) 131137, (size_t) 262145 }) lens.push_back(l);
+    for (int ci = 0; ci < NCIPH; ci++) for (size_t len : lens) {
+        Bytes key = r.bytes(32), nonce = r.bytes(NONCE[ci]); uint64_t ms = r.next();
+        if (!ctx.mine(idx++)) continue;
+        if (has_ic(ci) && !ctx.thorough() && (len % 5) != 0 && len != 40037) continue;      // the ciphers with a counter parameter reach these blocks in "counters" too
+        Rng rr(ms); Bytes msg = rr.bytes(len);
+        for (size_t mi = 0; mi < masks.size(); mi++) {
+            exec(ctx, Case{ ci, STREAM, key, nonce, Bytes(), 0, len, masks[mi], (len + mi) % 16 }, false);
+            exec(ctx, Case{ ci, XOR, key, nonce, msg, 0, len, masks[mi], (len + mi) % 16 }, false);
+        }
+    }
+    // across block 65536 (4 MiB): once per cipher and form
+    for (int ci = 0; ci < NCIPH; ci++) for (int form : { STREAM, XOR }) {
+        Bytes key = r.bytes(32), nonce = r.bytes(NONCE[ci]); uint64_t ms = r.next();
+        if (!ctx.mine(idx++)) continue;
+        if (has_ic(ci) && !ctx.thorough()) continue;
+        size_t len = ((size_t) 1 << 22) + 64 + (size_t) (ms % 100);
+        Rng rr(ms); Bytes msg = form == XOR ? rr.bytes(len) : Bytes();
+        exec(ctx, Case{ ci, form, key, nonce, msg, 0, len, masks[(size_t) (ms >> 8) % masks.size()], 0 }, false);
+    }
+}
+
 // ------------------------------------------------------------------ IETF counter overflow must hit the misuse handler
 struct MisuseCase {
     uint64_t ic; size_t len; unsigned long mask;
@@ -295,6 +324,7 @@ std::vector<Sub> vh_subs() {
     return {
         { "lengths", explore_lengths, replay },
         { "counters", explore_counters, replay },
+        { "long_requests", explore_long, replay },
         { "ietf_misuse", explore_misuse, replay },
         { "core", explore_core, replay },
     };
